@@ -41,7 +41,7 @@ fn positions(rest: &[String]) -> i32 {
         n += 1;
         let fields = proj::position(&g);
         let mf = mirror_fields(&fields);
-        let res = std::panic::catch_unwind(|| {
+        let res = crate::unwind_safe(|| {
             let mg_game = proj::game_from_fields(&mf);
             let ev = eval::eval(&g).0;
             let mev = eval::eval(&mg_game).0;
@@ -61,27 +61,27 @@ fn positions(rest: &[String]) -> i32 {
                     let mut tb = codes.clone();
                     tb[i] = if *c == 1 { 7 } else { 1 };
                     t.insert("b".into(), json!(tb));
-                    if let Ok(tg) = std::panic::catch_unwind(|| proj::game_from_fields(&Value::Object(t))) {
+                    if let Ok(tg) = crate::unwind_safe(|| proj::game_from_fields(&Value::Object(t))) {
                         twins.push(tg);
                     }
                 }
             }
             // in a thread of its own (nothing remembered yet): each twin first, then the position
-            let again = std::thread::scope(|sc| {
-                sc.spawn(|| {
-                    let mut worst = ev;
-                    for t in &twins {
-                        let _ = std::panic::catch_unwind(|| eval::eval(t).0);
-                        let v = eval::eval(&g).0;
-                        if v != ev {
-                            worst = v;
-                        }
+            // (owned copies are moved into the thread: the game type only has to be Send)
+            let gc = g.clone();
+            let again = std::thread::spawn(move || {
+                let mut worst = ev;
+                for t in &twins {
+                    let _ = crate::unwind_safe(|| eval::eval(t).0);
+                    let v = eval::eval(&gc).0;
+                    if v != ev {
+                        worst = v;
                     }
-                    worst
-                })
-                .join()
-                .unwrap_or(i16::MIN)
-            });
+                }
+                worst
+            })
+            .join()
+            .unwrap_or(i16::MIN);
             (ev, mev, evmg, eveg, again)
         });
         let mut ev = fields;
@@ -122,7 +122,7 @@ fn blend(rest: &[String]) -> i32 {
     let mut rng = StdRng::seed_from_u64(seed);
     let grid: [i16; 17] = [-32000, -20000, -3000, -1000, -100, -25, -24, -1, 0, 1, 24, 25, 100, 1000, 3000, 20000, 32000];
     let mut one = |mg: i16, eg: i16, ph: i16| {
-        let r = std::panic::catch_unwind(|| PhasedEval::new(mg, eg).for_phase(ph).0);
+        let r = crate::unwind_safe(|| PhasedEval::new(mg, eg).for_phase(ph).0);
         let ev = match r {
             Ok(v) => json!({"t": "blend", "mg": mg, "eg": eg, "ph": ph, "panic": false, "out": v}),
             Err(_) => json!({"t": "blend", "mg": mg, "eg": eg, "ph": ph, "panic": true, "out": 0}),
